@@ -290,7 +290,7 @@ sp_ctrsv(char *uplo, char *trans, char *diag, SuperMatrix *L,
 	    	luptr = L_NZ_START(fsupc);
 
                 for (jcol = fsupc; jcol < fsupc + nsupc; jcol++) {
-		    solve_ops += 8*(U_NZ_START(jcol+1) - U_NZ_START(jcol));
+		    solve_ops += 8*(U_NZ_END(jcol) - U_NZ_START(jcol));
                     for (i = U_NZ_START(jcol); i < U_NZ_END(jcol); i++) {
 			irow = U_SUB(i);
 			cc_mult(&comp_temp, &x[irow], &Uval[i]);
@@ -369,7 +369,7 @@ sp_ctrsv(char *uplo, char *trans, char *diag, SuperMatrix *L,
 	    	luptr = L_NZ_START(fsupc);
 
 		for (jcol = fsupc; jcol < L_LAST_SUPC(k); jcol++) {
-		    solve_ops += 8*(U_NZ_START(jcol+1) - U_NZ_START(jcol));
+		    solve_ops += 8*(U_NZ_END(jcol) - U_NZ_START(jcol));
 		    for (i = U_NZ_START(jcol); i < U_NZ_END(jcol); i++) {
 			irow = U_SUB(i);
                         cc_conj(&temp, &Uval[i]);
